@@ -19,7 +19,7 @@ EXPLANATION = (
     'then an error; require_route returns the first tag of the first routing item and raises when there is none; '
     'declared parameters receive the composite metadata exactly when named/annotated so, the payload otherwise. '
     'Not decided: nothing essential beyond what applications register.')
-EXPLANATION_ADDED = ('Parameter binding is decided per path of the collector: metadata parameters get the metadata, parameters annotated Payload or not annotated get the raw payload, any other annotation gets payload_deserializer(annotation, payload).')
+EXPLANATION_ADDED = ('Parameter binding is decided per path of the collector: metadata parameters get the metadata, parameters annotated Payload or not annotated get the raw payload, any other annotation gets payload_deserializer(annotation, payload). A failure of parsing, the gate, routing or the handler is converted by each entry point of the routing handler into the error value of its interaction and never propagates to the receive loop (shared C12.f).')
 EXPLANATION = EXPLANATION.replace(' Not decided', ' ' + EXPLANATION_ADDED + ' Not decided', 1) \
     if ' Not decided' in EXPLANATION else EXPLANATION + ' ' + EXPLANATION_ADDED
 ASSUMPTIONS = COMMON_ASSUMPTIONS
@@ -374,4 +374,13 @@ def rule_d(ctx):
     plumbing.rule_shared_defaults(ctx, 'C19.d', ['rsocket.routing'], 'routing')
 
 
-RULES = [('C19.a', rule_a), ('C19.b', rule_b), ('C19.c', rule_c), ('C19.d', rule_d)]
+def rule_e(ctx):
+    """A routed request that cannot be served fails on that request alone: whatever parsing, the authentication gate,
+    routing or the handler raises is converted by the routing handler's entry point into the error value of its
+    interaction (error future / error stream / nothing for the two one-way interactions) instead of reaching the
+    receive loop, which would answer a one-way interaction with an ERROR frame (shared C12.f)."""
+    from .c12 import rule_f as c12f
+    c12f(ctx)
+
+
+RULES = [('C19.a', rule_a), ('C19.b', rule_b), ('C19.c', rule_c), ('C19.d', rule_d), ('C12.f', rule_e)]
